@@ -2,7 +2,9 @@
   C02 — JSON wire round trip and agreement of all entry points.
 -/
 import TypelibModel.Model.Codec
+import TypelibModel.Lemmas.JsonRT
 import TypelibModel.Props.C01
+import TypelibModel.Props.C06
 namespace Typelib.C02
 open Typelib
 
@@ -81,5 +83,153 @@ theorem codec_roundtrip_U (S : Scalar → Bool) (env : Env) (L : Leaves) (hE : w
 /-- Non-vacuity: the identity coder satisfies the law on every value, and the C01 example
     round-trips through it. -/
 example : JsonLaw (fun _ => True) idCoder := ⟨fun m _ => ⟨m, rfl, rfl⟩⟩
+
+/-! ### The law instantiated: the model's own JSON coder pair
+
+`renderJson` (Model/JsonText.lean) is `json.dumps(m, separators=(",", ":"), ensure_ascii=False)` and
+`jsonParse` (Model/Text.lean) is `json.loads` on the executable fragment; `Lemmas/JsonRT.lean` proves
+`jsonParse (renderJson m) = some m` on `plainWire m` — so for this pair `JsonLaw` is a theorem, and the
+wire round trip holds without a named hypothesis. -/
+
+/-- The encoder: the compact JSON text of a plain wire value, as `bytes`. -/
+def jsonEnc (m : Val) : R Val :=
+  if plainWire m then .ok (.text .bytes (renderJson m)) else .error .unsupported
+
+/-- The decoder: `json.loads` of a `str` or of any bytes-like carrier. -/
+def jsonDec (b : Val) : R Val :=
+  match decode b with
+  | .str s =>
+    match jsonParse s with
+    | some m => .ok m
+    | none => .error .unsupported
+  | _ => .error .type
+
+def jsonCoder : Coder := { enc := jsonEnc, dec := jsonDec }
+
+/-- The decoder also reads Python's default spelling (`", "` / `": "`) of the same value. -/
+theorem jsonDec_renderSp (m : Val) (hm : plainWire m = true) (c : Carrier) :
+    jsonDec (.text c (renderJsonSp m)) = .ok m := by
+  simp [jsonDec, decode, jsonParse_renderSp m hm]
+
+/-- **`JsonLaw` holds for the model coder pair** on the plain wire values. -/
+theorem jsonCoder_law : JsonLaw (fun m => plainWire m = true) jsonCoder :=
+  ⟨fun m hm => ⟨.text .bytes (renderJson m), by simp [jsonCoder, jsonEnc, hm],
+    by simp [jsonCoder, jsonDec, decode, jsonParse_render m hm]⟩⟩
+
+/-- **Wire round trip through real JSON text**, no hypothesis on the coder left: if `v` round-trips
+    through marshal/unmarshal and its wire form `m` is a plain wire value, then the payload is
+    exactly the JSON text of `m`, a JSON reader gets `m` back from it, and decoding yields `v`. -/
+theorem codec_roundtrip_json (env : Env) (L : Leaves) (n : Nat) (t : Ty) (v m : Val)
+    (hm : mar env L n t v = .ok m) (hu : um env L n t m = .ok v) (hD : plainWire m = true)
+    (hb : isBytesTy t = false) :
+    codecEncode env L n t jsonCoder v = .ok (.text .bytes (renderJson m))
+      ∧ jsonParse (renderJson m) = some m
+      ∧ codecDecode env L n t jsonCoder (.text .bytes (renderJson m)) = .ok v := by
+  have hp := jsonParse_render m hD
+  refine ⟨?_, hp, ?_⟩
+  · simp [codecEncode, hm, coderFor, hb, jsonCoder, jsonEnc, hD]
+  · simp [codecDecode, coderFor, hb, jsonCoder, jsonDec, decode, hp, hu]
+
+/-- Instantiated with C01: every Optional-only annotation of U and every valid value whose wire form
+    is a plain wire value. -/
+theorem codec_roundtrip_json_U (S : Scalar → Bool) (env : Env) (L : Leaves) (hE : wfEnv S env = true)
+    (hL : LeafLaws S env L) (n : Nat) (t : Ty) (v : Val) (hwf : wfTy S env t = true)
+    (hty : hasType env n t v = true) (hb : isBytesTy t = false)
+    (hD : ∀ m, mar env L n t v = .ok m → plainWire m = true) :
+    ∃ b, codecEncode env L n t jsonCoder v = .ok b ∧ codecDecode env L n t jsonCoder b = .ok v :=
+  codec_roundtrip_U S env L hE hL jsonCoder _ jsonCoder_law n t v hwf hty hb hD
+
+/-! #### What C06 leaves to be assumed of the wire form
+
+`C06.marshal_plain` gives `jsonPlain m` for whatever a marshaller of a plain annotation returns.
+`plainWire m` is `jsonPlain m` plus exactly the following decidable side conditions (`wireSide`):
+no float anywhere; every int within 64 bits (`int64`: −2^63 … 2^64−1); every string (values and keys)
+free of control characters other than `\n \r \t \b \f`; every dict key a `str`; the keys of each dict
+pairwise distinct. -/
+
+mutual
+  def wireSide : Val → Bool
+    | .int i => int64 i
+    | .float _ => false
+    | .str s => okStr s
+    | .list xs => wireSideList xs
+    | .dict kvs => wireSidePairs kvs && distinctKeys (kvs.map Prod.fst)
+    | _ => true
+  termination_by structural w => w
+  def wireSideList : List Val → Bool
+    | [] => true
+    | x :: xs => wireSide x && wireSideList xs
+  termination_by structural xs => xs
+  def wireSidePairs : List (Val × Val) → Bool
+    | [] => true
+    | (k, v) :: kvs => keyOk k && wireSide v && wireSidePairs kvs
+  termination_by structural kvs => kvs
+end
+
+mutual
+  theorem plainWire_of_jsonPlain : ∀ m : Val, jsonPlain m = true → wireSide m = true → plainWire m = true
+    | .none, _, _ => rfl
+    | .bool _, _, _ => rfl
+    | .int i, _, h => by simpa [wireSide, plainWire] using h
+    | .str s, _, h => by simpa [wireSide, plainWire] using h
+    | .list xs, hj, h => by
+      simp only [jsonPlain] at hj
+      simp only [wireSide] at h
+      simp only [plainWire]
+      exact plainList_of_jsonPlain xs hj h
+    | .dict kvs, hj, h => by
+      simp only [jsonPlain] at hj
+      simp only [wireSide, Bool.and_eq_true] at h
+      simp only [plainWire, Bool.and_eq_true]
+      exact ⟨plainPairs_of_jsonPlain kvs hj h.1, h.2⟩
+  theorem plainList_of_jsonPlain : ∀ xs : List Val, jsonPlainList xs = true → wireSideList xs = true →
+      plainList xs = true
+    | [], _, _ => rfl
+    | x :: xs, hj, h => by
+      simp only [jsonPlainList, Bool.and_eq_true] at hj
+      simp only [wireSideList, Bool.and_eq_true] at h
+      simp only [plainList, Bool.and_eq_true]
+      exact ⟨plainWire_of_jsonPlain x hj.1 h.1, plainList_of_jsonPlain xs hj.2 h.2⟩
+  theorem plainPairs_of_jsonPlain : ∀ kvs : List (Val × Val), jsonPlainPairs kvs = true →
+      wireSidePairs kvs = true → plainPairs kvs = true
+    | [], _, _ => rfl
+    | (k, v) :: kvs, hj, h => by
+      simp only [jsonPlainPairs, Bool.and_eq_true] at hj
+      simp only [wireSidePairs, Bool.and_eq_true] at h
+      simp only [plainPairs, Bool.and_eq_true]
+      exact ⟨⟨h.1.1, plainWire_of_jsonPlain v hj.1.2 h.1.2⟩, plainPairs_of_jsonPlain kvs hj.2 h.2⟩
+end
+
+/-- **Round trip for every plain annotation**: with C06, only `wireSide` of the wire form remains. -/
+theorem codec_roundtrip_json_plain (env : Env) (L : Leaves) (hE : C06.plainEnv env = true)
+    (hL : C06.LeafPlain L) (n : Nat) (t : Ty) (v m : Val) (ht : C06.plainTy t = true)
+    (hm : mar env L n t v = .ok m) (hu : um env L n t m = .ok v) (hS : wireSide m = true) :
+    codecEncode env L n t jsonCoder v = .ok (.text .bytes (renderJson m))
+      ∧ jsonParse (renderJson m) = some m
+      ∧ codecDecode env L n t jsonCoder (.text .bytes (renderJson m)) = .ok v := by
+  have hb : isBytesTy t = false := by
+    cases t with
+    | scalar s => cases s <;> first | rfl | simp [C06.plainTy] at ht
+    | _ => rfl
+  exact codec_roundtrip_json env L n t v m hm hu
+    (plainWire_of_jsonPlain m (C06.marshal_plain env L hE hL n t v m ht hm) hS) hb
+
+/-- Non-vacuity: `{"a": [1, None]}` under `dict[str, list[int | None]]` with the executable leaves —
+    marshals to itself, unmarshals back, and the side conditions hold. -/
+example : wireSide (.dict [(.str ['a'], .list [.int 1, .none])]) = true := by decide
+example :
+    let t : Ty := .dict (.scalar .str) (.coll .list (.union [.scalar .int, .none]))
+    let v : Val := .dict [(.str ['a'], .list [.int 1, .none])]
+    codecEncode [] (pyLeaves []) 6 t jsonCoder v = .ok (.text .bytes (renderJson v))
+      ∧ codecDecode [] (pyLeaves []) 6 t jsonCoder (.text .bytes (renderJson v)) = .ok v := by
+  intro t v
+  have h := codec_roundtrip_json_plain [] (pyLeaves []) (by decide) (C06.pyLeaves_plain [] 0) 6 t v v
+    (by decide) (by rfl) (by rfl) (by decide)
+  exact ⟨h.1, h.2.2⟩
+
+/-- The side conditions are needed: a float has no text in the fragment, and a 65-bit integer is not
+    read back as an integer. -/
+example : jsonEnc (.float ['1', '.', '5']) = .error .unsupported := rfl
+example : jsonParse (renderJson (.int 18446744073709551616)) = none := by rfl
 
 end Typelib.C02
